@@ -370,7 +370,7 @@ func (Engine) Run(c *simkit.Choices, x *simkit.Ctx) *simkit.Violation {
 	}
 	te := pickType(c, c.N(20) == 0)
 	if unfolderVariant != 0 && c.Bool() {
-		te = model.TypeByName([]string{"Score", "[]Score", "map[string]Score", "Scored"}[c.N(4)])
+		te = model.TypeByName([]string{"Score", "[]Score", "map[string]Score", "Scored", "Labeled", "Label"}[c.N(6)])
 		if c.N(3) == 0 {
 			te = &model.TreeEntry // nested activations of one user unfolder
 		}
